@@ -179,6 +179,10 @@ impl AggregatorNode {
                 security_parameter: mithril_common::entities::BlockNumberOffset(5),
                 step: mithril_common::entities::BlockNumber(15),
             }),
+            cardano_blocks_transactions_signing_config: Some(mithril_common::entities::CardanoBlocksTransactionsSigningConfig {
+                security_parameter: mithril_common::entities::BlockNumberOffset(5),
+                step: mithril_common::entities::BlockNumber(15),
+            }),
             ..ServeCommandConfiguration::new_sample(snapshots)
         }
     }
